@@ -126,7 +126,8 @@ def run(sc, choices=None):
             raise InvalidScenario("path")
         if any(c in (path + (query or "")) for c in " \r\n#;?"):
             raise InvalidScenario("path chars")
-        opts = dict(sc.get("opts", {}))
+        import copy
+        opts = copy.deepcopy(dict(sc.get("opts", {})))  # the caller's own objects: the SAME ones are handed to every connection
         conns = int(sc.get("conns", 1))
         if not 1 <= conns <= 4:
             raise InvalidScenario("conns")
